@@ -245,6 +245,7 @@ def run(tier, seed, only=None):
     group_chain(rep, tier, timeout)
     group_defaults(rep, tier, timeout)
     geometry_group_level(rep, tier, timeout)
+    multisection_vs_single(rep, tier, timeout)
     splines(rep)
     rep.bounds = {"meshes": [c[0] for c in cfgs], "ref_axis_pos": "symbolic in [0,1]"}
     rep.assumptions = ["real arithmetic", "input meshes have chordwise lines at constant y, strictly increasing y, the symmetric root on y = 0 at the last index "
@@ -565,3 +566,103 @@ def replay_geometry_group(surf, dv):
             if np.abs(base - now).max() > 1e-9:
                 others.append(o)
     return bad or bool(others), "%s = %g gives the %s transformation input %s%s" % (name, val, dv, np.round(got, 6), (" and changes " + ", ".join(others)) if others else "")
+
+
+def multisection_vs_single(rep, tier, timeout):
+    """A wing given as abutting sections (the real MultiSecGeometry group: build_sections, one Geometry group per section,
+    mesh unification) against the same wing as one surface (the real Geometry group), both through their own wiring, with
+    a non-default reference axis, constant chord scaling c and constant twist t (equal control points): the unified mesh
+    equals the single-surface mesh node for node."""
+    import warnings
+
+    import openmdao.api as om
+    from openaerostruct.geometry.geometry_group import Geometry, MultiSecGeometry
+    from symoas import pipe
+
+    cfgs = [("symmetric half, 2 sections, ref axis 0.625", True, [3, 2], 0.625)]
+    if tier == "thorough":
+        cfgs += [("symmetric half, 3 sections, ref axis 0.0", True, [2, 3, 2], 0.0), ("symmetric half, 2 sections, default axis", True, [3, 2], None)]
+    for lab, symm, nys, rapv in cfgs:
+        nx = 2
+        ny = sum(nys) - (len(nys) - 1)
+        cm = K.rect_mesh(nx, ny, symm)
+        cm[:, :, 0] += 0.25 * np.abs(cm[:, :, 1])  # swept, so that the reference axis position matters for twist
+        m = np.empty((nx, ny, 3), dtype=object)
+        for i in range(nx):
+            for j in range(ny):
+                m[i, j, 0], m[i, j, 1], m[i, j, 2] = var("x[%d,%d]" % (i, j)), S(float(cm[i, j, 1])), var("zs[%d]" % j)
+        cuts, j0 = [], 0
+        for n_ in nys:
+            cuts.append((j0, j0 + n_))
+            j0 += n_ - 1
+        common = {"symmetry": symm, "S_ref_type": "wetted", "CL0": 0.0, "CD0": 0.015, "k_lam": 0.05, "c_max_t": 0.303, "with_viscous": False,
+                  "with_wave": False, "groundplane": False}
+        if rapv is not None:
+            common["ref_axis_pos"] = rapv
+        ncp = 2
+        multi = dict(common, name="surface", is_multi_section=True, num_sections=len(nys), sec_name=["sec%d" % k for k in range(len(nys))],
+                     meshes=[np.array(cm[:, a:b, :]) for a, b in cuts], root_section=len(nys) - 1,
+                     chord_cp=[np.ones(ncp)] * len(nys), twist_cp=[np.zeros(ncp)] * len(nys))
+        single = dict(common, name="wing", mesh=np.array(cm), chord_cp=np.ones(ncp), twist_cp=np.zeros(ncp))
+        c, t = var("c"), var("t")
+
+        def run(group, taper_paths, meshes, ext):
+            prob = om.Problem(reports=False)
+            prob.model.add_subsystem("g", group)
+            with warnings.catch_warnings():
+                warnings.simplefilter("ignore")
+                prob.setup()
+                prob.final_setup()
+            GP = pipe.GroupPipe(prob)
+            GP.internal_defaults = True
+            taps = [prob.model._get_subsystem(p_) for p_ in taper_paths]
+            keep = [tp.options["mesh"] for tp in taps]
+            for tp, mm in zip(taps, meshes):
+                tp.options["mesh"] = mm
+            try:
+                GP.run(external=ext)
+            finally:
+                for tp, kk in zip(taps, keep):
+                    tp.options["mesh"] = kk
+            return GP
+
+        ext_m = {}
+        for k in range(len(nys)):
+            ext_m["g.sec%d.chord_cp" % k] = np.array([c] * ncp, dtype=object)
+            ext_m["g.sec%d.twist_cp" % k] = np.array([t] * ncp, dtype=object)
+        try:
+            Gm = run(MultiSecGeometry(surface=multi, shift_uni_mesh=False), ["g.sec%d.mesh.taper" % k for k in range(len(nys))], [m[:, a:b, :] for a, b in cuts], ext_m)
+            Gs = run(Geometry(surface=single), ["g.mesh.taper"], [m], {"g.chord_cp": np.array([c] * ncp, dtype=object), "g.twist_cp": np.array([t] * ncp, dtype=object)})
+        except Exception as e:
+            rep.errors.append("multi-section geometry group could not be executed: %r" % (e,))
+            return
+        rep.encode(MultiSecGeometry)
+        uni = [v for k_, v in Gm.vals.items() if k_.endswith("_unification.surface_uni_mesh")][0]
+        one = Gs.get("g.mesh")
+        obs = idents("unified mesh", uni, one, meta={"family": "a wing split into sections gives the mesh of the same wing as one surface (chord scaling and twist about the requested reference axis)", "cfg": lab})
+
+        def rp(ob, env, multi=multi, single=single):
+            def real(group, sets):
+                prob = om.Problem(reports=False)
+                prob.model.add_subsystem("g", group)
+                with warnings.catch_warnings():
+                    warnings.simplefilter("ignore")
+                    prob.setup()
+                    for k_, v_ in sets.items():
+                        prob.set_val(k_, v_)
+                    prob.run_model()
+                return prob
+            cv, tv = 1.5, 4.0
+            sets = {}
+            for k_ in range(multi["num_sections"]):
+                sets["g.sec%d.chord_cp" % k_] = cv * np.ones(2)
+                sets["g.sec%d.twist_cp" % k_] = tv * np.ones(2)
+            pm = real(MultiSecGeometry(surface=multi, shift_uni_mesh=False), sets)
+            ps = real(Geometry(surface=single), {"g.chord_cp": cv * np.ones(2), "g.twist_cp": tv * np.ones(2)})
+            a = np.array(pm.get_val("g.surface_unification.surface_uni_mesh"), dtype=float)
+            b = np.array(ps.get_val("g.mesh"), dtype=float)
+            d = float(np.abs(a - b).max())
+            return d > 1e-9, "chord x %.2g and twist %.2g deg everywhere: unified multi-section mesh differs from the single-surface mesh by %.6g" % (cv, tv, d)
+
+        run_obligations(rep, "real MultiSecGeometry vs Geometry [%s]" % lab, obs, timeout, replay=rp, levels=(1, 2), relate=[],
+                        family=lambda ob: "MultiSecGeometry: " + ob.meta["family"], fixed={"c": 1.5, "t": 4.0})
